@@ -51,6 +51,9 @@ SIGS_TRAIN = {      # methods of class SpikeTrain; `self` is the object
 SQ_FUNCS = {'default_thresh_', 'default_thresh'}
 FUELED = {'default_thresh_', 'default_thresh', 'isi_lengths'}      # take the loop fuel `F` as first argument
 EXTERNAL = {'isi_lengths': ('PySpike.GenIsiLen.isi_lengths', [('spike_times', 'ratlist'), ('t_start', 'rat'), ('t_end', 'rat')], 'ratlist')}
+# names the translator gives a fixed meaning: they must not be re-bound anywhere in the module or used as local names
+INTERPRETED = {'np', 'SpikeTrain', 'min', 'max', 'len', 'range', 'isi_lengths', 'default_thresh', 'default_thresh_',
+               'reconcile_spike_trains', 'reconcile_spike_trains_bi', 'merge_spike_trains', 'True', 'False', 'None'}
 LEAN_TY = {'int': 'Int', 'rat': 'Rat', 'ratlist': 'List Rat', 'train': 'PyTrain', 'trainlist': 'List PyTrain', 'bool': 'Bool',
            'trainpair': 'PyTrain × PyTrain', 'ratlistlist': 'List (List Rat)'}
 ELEM = {'ratlist': 'rat', 'trainlist': 'train', 'ratlistlist': 'ratlist'}
@@ -67,6 +70,7 @@ class ApiFn:
         self.env = {n: t for n, t in sig}
         self.fresh = set()          # trainlist locals known to hold freshly constructed, pairwise distinct objects
         self.fresh_arr = set()      # array locals created by a numpy call in this function and not aliased
+        self.nd = set()             # list-of-floats locals that are numpy arrays (the others are Python lists)
         self.k = 0
         self.lines = []
 
@@ -75,7 +79,13 @@ class ApiFn:
 
     def tmp(self):
         self.k += 1
-        return 'v%d' % self.k
+        return '«$%d»' % self.k          # not a Python identifier: cannot capture a local of the source
+
+    def user_name(self, node, n):
+        """a name bound by the source (parameter, local, loop or comprehension variable)"""
+        if n.endswith('_') or n in ('F', 'acc_') or n in INTERPRETED:
+            self.bad(node, 'the name %s would collide with a name the translator uses or interprets' % n)
+        return n
 
     # --- expressions: returns (code, type); partial sub-expressions are bound first (only at statement level)
     def cx(self, e, env, top):
@@ -99,6 +109,8 @@ class ApiFn:
         if isinstance(e, ast.BinOp) and isinstance(e.op, (ast.Add, ast.Sub, ast.Mult, ast.Div)):
             a, ta = self.cx(e.left, env, top); b, tb = self.cx(e.right, env, top)
             if (ta, tb) == ('ratlist', 'ratlist') and isinstance(e.op, ast.Mult):
+                if not (self.is_nd(e.left, env) and self.is_nd(e.right, env)):
+                    self.bad(e, '`*` of Python lists (only numpy arrays multiply elementwise)')
                 return self.partial('vZip (fun x y => x * y) %s %s' % (a, b), 'ratlist', top, e)
             if (ta, tb) == ('rat', 'int') and isinstance(e.op, ast.Div):
                 b, tb = '((%s : Int) : Rat)' % b, 'rat'       # float / int: true division in every Python version
@@ -126,11 +138,12 @@ class ApiFn:
             if t != 'ratlist':
                 self.bad(e, '.tolist() of a non-array')
             return c, 'ratlist'
-        if isinstance(e, ast.BoolOp) and isinstance(e.op, ast.And):
-            parts = [self.cx(v, env, top) for v in e.values]
+        if isinstance(e, ast.BoolOp) and isinstance(e.op, (ast.And, ast.Or)):
+            # short-circuit: only the first operand is always evaluated, so only it may contain an expression that can raise
+            parts = [self.cx(v, env, top and k == 0) for k, v in enumerate(e.values)]
             if any(t != 'bool' for _, t in parts):
-                self.bad(e, '`and` of non-booleans')
-            return '(' + ' && '.join(c for c, _ in parts) + ')', 'bool'
+                self.bad(e, '`and` / `or` of non-booleans')
+            return '(' + (' && ' if isinstance(e.op, ast.And) else ' || ').join(c for c, _ in parts) + ')', 'bool'
         if isinstance(e, ast.Subscript) and isinstance(e.slice, ast.Constant) and isinstance(e.slice.value, int) and e.slice.value >= 0:
             c, t = self.cx(e.value, env, top)
             if t not in ELEM:
@@ -142,7 +155,7 @@ class ApiFn:
             it, tit = self.cx(g.iter, env, top)
             if tit not in ELEM:
                 self.bad(e, 'comprehension over a non-list')
-            v = g.target.id
+            v = self.user_name(e, g.target.id)
             env2 = dict(env); env2[v] = ELEM[tit]
             src = it
             for c in g.ifs:
@@ -235,6 +248,43 @@ class ApiFn:
         self.lines.append('  Option.bind (%s) fun (%s : %s) =>' % (code, v, LEAN_TY[ty]))
         return v, ty
 
+    def note_escapes(self, stmt):
+        """an array created locally stops being exclusively ours as soon as it is stored somewhere or handed on: in a list /
+        tuple display, as an attribute value, as an argument of a call other than np.* / len / SpikeTrain(…) (which copy or
+        only read). After that an in-place `.sort()` on it is no longer accepted."""
+        if not self.fresh_arr:
+            return
+        parents = {}
+        for node in ast.walk(stmt):
+            for ch in ast.iter_child_nodes(node):
+                parents[ch] = node
+        for node in ast.walk(stmt):
+            if isinstance(node, ast.Name) and node.id in self.fresh_arr and isinstance(node.ctx, ast.Load):
+                par = parents.get(node)
+                ok = False
+                if isinstance(par, ast.Attribute) and par.attr == 'sort' and isinstance(parents.get(par), ast.Call) and isinstance(parents.get(parents.get(par)), ast.Expr):
+                    ok = True
+                elif isinstance(par, ast.Call) and node in par.args:
+                    f = par.func
+                    ok = (isinstance(f, ast.Name) and f.id in ('len', 'SpikeTrain')) or \
+                         (isinstance(f, ast.Attribute) and isinstance(f.value, ast.Name) and f.value.id == 'np')
+                elif isinstance(par, (ast.BinOp, ast.Subscript, ast.Compare)):
+                    ok = True
+                if not ok:
+                    self.fresh_arr.discard(node.id)
+
+    def is_nd(self, e, env):
+        """is this list-of-floats expression a numpy array (True) or a Python list (False)?"""
+        if isinstance(e, ast.Name):
+            return e.id in self.nd
+        if isinstance(e, ast.Attribute) and e.attr == 'spikes':
+            return True
+        if isinstance(e, ast.Call) and isinstance(e.func, ast.Attribute) and isinstance(e.func.value, ast.Name) and e.func.value.id == 'np':
+            return True
+        if isinstance(e, ast.Call) and isinstance(e.func, ast.Attribute) and e.func.attr == 'copy':
+            return self.is_nd(e.func.value, env)
+        return False
+
     def tmp_keep(self):
         self.last_tmp = self.tmp()
         return self.last_tmp
@@ -276,9 +326,13 @@ class ApiFn:
         if [a.arg for a in self.node.args.args] != [n for n, _ in self.sig]:
             self.bad(self.node, 'parameters are %s' % [a.arg for a in self.node.args.args])
         done = False
+        for n_, _ in self.sig:
+            if n_ != 'self':
+                self.user_name(self.node, n_)
         for s in body:
             if done:
                 self.bad(s, 'statement after return')
+            self.note_escapes(s)
             if isinstance(s, ast.Assign) and len(s.targets) == 1 and isinstance(s.targets[0], ast.Name):
                 c, t = self.cx(s.value, self.env, True)
                 n = s.targets[0].id
@@ -292,9 +346,13 @@ class ApiFn:
                     for x in ast.walk(s.value):
                         if isinstance(x, ast.Name) and x.id in self.fresh and not self.is_fresh_comp(s.value):
                             self.fresh.discard(x.id)
+                self.user_name(s, n)
                 self.env[n] = t
                 self.fresh.discard(n)
                 self.fresh_arr.discard(n)
+                self.nd.discard(n)
+                if t == 'ratlist' and self.is_nd(s.value, self.env):
+                    self.nd.add(n)
                 if self.is_fresh_comp(s.value):
                     self.fresh.add(n)
                 if isinstance(s.value, ast.Call) and isinstance(s.value.func, ast.Attribute) and isinstance(s.value.func.value, ast.Name) \
@@ -310,6 +368,7 @@ class ApiFn:
             elif isinstance(s, ast.For) and isinstance(s.target, ast.Name) and isinstance(s.iter, ast.Name) and not s.orelse \
                     and all(isinstance(b, ast.Assign) for b in s.body):
                 L, v = s.iter.id, s.target.id
+                self.user_name(s, v)
                 if self.env.get(L) != 'trainlist' or L not in self.fresh:
                     self.bad(s, 'loop mutating the objects of a list that is not known to hold fresh, distinct objects')
                 env2 = dict(self.env); env2[v] = 'train'
@@ -327,6 +386,7 @@ class ApiFn:
                         self.bad(b, 'attribute type')
                     upd.append('%s := %s' % (b.targets[0].attr, c))
                 self.lines.append('  let %s : List PyTrain := List.map (fun (%s : PyTrain) => { %s with %s }) %s' % (lname(L), lname(v), lname(v), ', '.join(upd), lname(L)))
+                self.env.pop(v, None)
             elif isinstance(s, ast.If) and len(s.body) == 1 and len(s.orelse) == 1 and isinstance(s.body[0], ast.Return) and isinstance(s.orelse[0], ast.Return) \
                     and s.body[0].value is not None and s.orelse[0].value is not None and not self.sq:
                 c, t = self.cx(s.test, self.env, True)
@@ -350,13 +410,21 @@ class ApiFn:
                 c, t = self.cx(s.test, self.env, True)
                 if t != 'bool':
                     self.bad(s, 'condition is not a comparison')
-                r = self.ret_code(s.body[0])
-                self.lines.append('  if %s then some %s else' % (c, r))
+                outer = self.lines
+                self.lines = []; r = self.ret_code(s.body[0]); inner = self.lines
+                self.lines = outer
+                if inner:
+                    self.lines.append('  if %s then\n%s    some %s\n  else' % (c, ''.join('  %s\n' % l for l in inner), r))
+                else:
+                    self.lines.append('  if %s then some %s else' % (c, r))
             elif isinstance(s, ast.For) and isinstance(s.target, ast.Name) and not s.orelse and len(s.body) == 1 \
                     and isinstance(s.body[0], ast.AugAssign) and isinstance(s.body[0].op, ast.Add) and isinstance(s.body[0].target, ast.Name):
                 # `for v in L: acc += e(v)` on a list accumulator: a left fold in the Option monad
                 acc, v = s.body[0].target.id, s.target.id
                 it, tit = self.cx(s.iter, self.env, True)
+                self.user_name(s, v)
+                if acc in self.nd:
+                    self.bad(s, '`+=` on a numpy array is elementwise addition, not concatenation')
                 if self.env.get(acc) != 'ratlist' or tit not in ELEM or acc == v or acc in [n for n, _ in self.sig]:
                     self.bad(s, 'accumulation loop of an unsupported shape (the accumulator must be a local list)')
                 if any(isinstance(x, ast.Name) and x.id == acc for x in ast.walk(s.body[0].value)) or \
@@ -372,6 +440,7 @@ class ApiFn:
                 self.lines.append('  Option.bind (List.foldlM (fun (acc_ : List Rat) (%s : %s) => %s) %s %s) fun (%s : List Rat) =>' % (
                     lname(v), LEAN_TY[ELEM[tit]], body, lname(acc), it, self.tmp_keep()))
                 self.lines.append('  let %s : List Rat := %s' % (lname(acc), self.last_tmp))
+                self.env.pop(v, None)        # Python keeps the loop variable; a later read would see the LAST element: not modelled
             elif isinstance(s, ast.Return) and s.value is not None and self.sq:
                 self.lines.append('  some %s' % self.ret_code(s))
                 done = True
@@ -401,11 +470,100 @@ class ApiFn:
         return head + '\n' + '\n'.join(self.lines) + '\n'
 
 
+def check_names_untouched(tree, where, translated):
+    """The module must give the interpreted names the meaning the translator assumes, everywhere: no assignment, `global`,
+    `def`, `class`, `import … as`, loop or `with` target binding one of them at ANY depth (outside the translated functions,
+    whose own locals are checked by `user_name`), and each translated function defined exactly once in the whole file."""
+    expected_imports = {'np': (None, 'numpy'), 'SpikeTrain': ('pyspike', 'SpikeTrain'), 'isi_lengths': None,
+                        'default_thresh': ('pyspike.isi_lengths', 'default_thresh'),
+                        'reconcile_spike_trains': None, 'reconcile_spike_trains_bi': None}
+    defs = {}
+    # a function may use its own name for a local (isi_lengths does): that binding is local to it and shadows nothing else
+    own_local = set()
+    for fn in ast.walk(tree):
+        if isinstance(fn, ast.FunctionDef):
+            for x in ast.walk(fn):
+                if isinstance(x, ast.Name) and isinstance(x.ctx, ast.Store) and x.id == fn.name and not any(isinstance(g, ast.Global) and fn.name in g.names for g in ast.walk(fn)):
+                    own_local.add(id(x))
+    for node in ast.walk(tree):
+        if isinstance(node, (ast.FunctionDef, ast.AsyncFunctionDef, ast.ClassDef)):
+            defs[node.name] = defs.get(node.name, 0) + 1
+            if node.name in INTERPRETED and node.name not in translated and not (node.name == 'SpikeTrain' and where == 'SpikeTrain.py') \
+                    and not (node.name == 'isi_lengths' and where == 'isi_lengths.py'):
+                raise Untranslatable('%s: %s is re-defined' % (where, node.name))
+        if isinstance(node, (ast.Global, ast.Nonlocal)) and set(node.names) & INTERPRETED:
+            raise Untranslatable('%s: global / nonlocal declaration of %s' % (where, sorted(set(node.names) & INTERPRETED)))
+        if isinstance(node, ast.Name) and isinstance(node.ctx, (ast.Store, ast.Del)) and node.id in INTERPRETED and id(node) not in own_local:
+            raise Untranslatable('%s: %s is re-bound (line %s)' % (where, node.id, node.lineno))
+        if isinstance(node, (ast.Import, ast.ImportFrom)):
+            for a in node.names:
+                nm = a.asname or a.name.split('.')[0]
+                if nm in INTERPRETED:
+                    exp = expected_imports.get(nm, 'none')
+                    got = (getattr(node, 'module', None), a.name)
+                    if exp == 'none' or (exp is not None and got != exp):
+                        raise Untranslatable('%s: `%s` is imported as %s' % (where, nm, got))
+        if isinstance(node, ast.arg) and node.arg in INTERPRETED:
+            raise Untranslatable('%s: a parameter is called %s' % (where, node.arg))
+        if isinstance(node, ast.ExceptHandler) and node.name in INTERPRETED:
+            raise Untranslatable('%s: an exception is bound to %s' % (where, node.name))
+    for nm in translated:
+        if defs.get(nm, 0) != 1:
+            raise Untranslatable('%s: %s is defined %d times in the file' % (where, nm, defs.get(nm, 0)))
+    # imports inside try / if / functions could be conditional re-bindings: imports of the interpreted names must be top-level
+    for node in ast.walk(tree):
+        for ch in ast.iter_child_nodes(node):
+            if isinstance(ch, (ast.Import, ast.ImportFrom)) and node is not tree:
+                if any((a.asname or a.name.split('.')[0]) in INTERPRETED for a in ch.names):
+                    raise Untranslatable('%s: conditional / nested import of an interpreted name' % where)
+
+
+# the SpikeTrain constructor is MODELLED (Gen/PreludeApi.lean: mkTrain): its source is pinned, a change is not silently accepted
+CTOR_PIN = None
+
+
+def check_ctor(repo):
+    """`SpikeTrain.__init__` must be the constructor `mkTrain` models: pinned by the dump of its AST (docstring removed);
+    returns the default of `is_sorted`. The class must not define properties / descriptors for the three attributes."""
+    import hashlib
+    tree = ast.parse(open(os.path.join(repo, 'pyspike', 'SpikeTrain.py'), 'rb').read().decode('utf-8'))
+    cs = [n for n in ast.walk(tree) if isinstance(n, ast.ClassDef) and n.name == 'SpikeTrain']
+    if len(cs) != 1 or cs[0] not in tree.body:
+        raise Untranslatable('SpikeTrain.py: class SpikeTrain is not defined exactly once at top level')
+    cls = cs[0]
+    if [getattr(b, 'id', None) for b in cls.bases] != ['object'] or cls.keywords or cls.decorator_list:
+        raise Untranslatable('SpikeTrain.py: class SpikeTrain has bases / a metaclass / decorators')
+    for n in cls.body:
+        if isinstance(n, ast.FunctionDef) and (n.name in ('__getattr__', '__getattribute__', '__setattr__', '__slots__', 'spikes', 't_start', 't_end')
+                                               or (n.decorator_list and n.name not in ())):
+            raise Untranslatable('SpikeTrain.py: attribute access is customised (%s)' % n.name)
+        if isinstance(n, (ast.Assign, ast.AnnAssign, ast.AugAssign)):
+            raise Untranslatable('SpikeTrain.py: class-level assignment')
+    inits = [n for n in cls.body if isinstance(n, ast.FunctionDef) and n.name == '__init__']
+    if len(inits) != 1:
+        raise Untranslatable('SpikeTrain.py: __init__ is defined %d times' % len(inits))
+    init = inits[0]
+    body = [b for b in init.body if not (isinstance(b, ast.Expr) and isinstance(b.value, ast.Constant))]
+    dump = ast.unparse(ast.Module(body=body, type_ignores=[])) + '|' + ast.unparse(init.args)      # normalised source text
+    h = hashlib.sha256(dump.encode()).hexdigest()[:24]
+    if h != CTOR_DIGEST:
+        raise Untranslatable('SpikeTrain.py: __init__ differs from the constructor modelled by mkTrain (AST digest %s, pinned %s)' % (h, CTOR_DIGEST))
+    d = init.args.defaults
+    if [a.arg for a in init.args.args] != ['self', 'spike_times', 'edges', 'is_sorted'] or len(d) != 1 or not isinstance(d[0], ast.Constant) or d[0].value is not True:
+        raise Untranslatable('SpikeTrain.py: __init__ signature')
+    return True
+
+
+CTOR_DIGEST = '23592cb6239a55462bebf1be'
+
+
 def generate_api(repo='/repo'):
     rel = 'pyspike/spikes.py'
     tree = ast.parse(open(os.path.join(repo, rel), 'rb').read().decode('utf-8'))
     names = list(SIGS_API)
     check_no_rebinding(tree, names, 'spikes.py')
+    check_names_untouched(tree, 'spikes.py', names)
+    check_ctor(repo)
     # the names the functions rely on must mean what the translator assumes
     imps = {(a.asname or a.name): (getattr(n, 'module', None), a.name) for n in tree.body if isinstance(n, (ast.Import, ast.ImportFrom)) for a in n.names}
     if imps.get('np') != (None, 'numpy') or imps.get('SpikeTrain') != ('pyspike', 'SpikeTrain'):
@@ -436,6 +594,8 @@ def generate_train(repo='/repo'):
     tree = ast.parse(open(os.path.join(repo, rel), 'rb').read().decode('utf-8'))
     names = list(SIGS_TRAIN)
     check_no_rebinding(tree, names, 'SpikeTrain.py', cls='SpikeTrain')
+    check_names_untouched(tree, 'SpikeTrain.py', names)
+    check_ctor(repo)
     imps = {(a.asname or a.name): (getattr(n, 'module', None), a.name) for n in tree.body if isinstance(n, (ast.Import, ast.ImportFrom)) for a in n.names}
     if imps.get('np') != (None, 'numpy'):
         raise Untranslatable('SpikeTrain.py: `np` is not numpy')
@@ -467,6 +627,7 @@ def generate_thresh(repo='/repo'):
     tree = ast.parse(open(os.path.join(repo, rel), 'rb').read().decode('utf-8'))
     names = list(SIGS_THRESH)
     check_no_rebinding(tree, names + ['isi_lengths'], 'isi_lengths.py')
+    check_names_untouched(tree, 'isi_lengths.py', names + ['isi_lengths'])
     imps = {(a.asname or a.name): (getattr(n, 'module', None), a.name) for n in tree.body if isinstance(n, (ast.Import, ast.ImportFrom)) for a in n.names}
     if imps.get('np') != (None, 'numpy'):
         raise Untranslatable('isi_lengths.py: `np` is not numpy')
